@@ -4,7 +4,8 @@ Role A: MCEvolve.tla -- every writer schema obtained from the reader schema by p
 evolution (unchanged, removed, renamed, requiredness flipped, retyped with the same or
 another wire type, container element retyped) plus new fields, every writer value, and
 every injection of 5 foreign fields (incl. a known id with another wire type, nested
-containers) at every field boundary of every depth: the declarative Project(W, R, v)
+containers) at every field boundary of every depth; a second reader Rc whose containers of
+fixed-width elements are retyped among element types of the same width: the declarative Project(W, R, v)
 equals the reference deserializer and both path machines on the writer's bytes.
 Role B: the states of that model are printed as cases and replayed on code generated for
 the reader schema (both decoding paths, 4 segmentations).  Role C: C05Trace.tla."""
@@ -16,7 +17,10 @@ import c01
 def canary(row, rng):
     if row.get("op") != "bytes" or not row["fw"]["ok"]:
         return None
-    row["fw"]["g"] = {"g": "struct", "f": [{"n": "a", "v": {"g": "str", "b": [1, 2, 3, 4, 5]}}]}
+    if row["case"]["tn"] == "Rc":
+        row["fw"]["ok"] = False                # the value path reports a failure where the projection is a value
+    else:
+        row["fw"]["g"] = {"g": "struct", "f": [{"n": "a", "v": {"g": "str", "b": [1, 2, 3, 4, 5]}}]}
     return row
 
 
@@ -38,8 +42,8 @@ def emit_cases(ctx):
         raise vlib.Inconclusive("MCEvolve printed no cases")
     out = []
     for i, c in enumerate(cases):
-        W = [dict(d, fields=c["wf"]) if d["name"] == "Rd" else d for d in rschema]
-        out.append({"id": "e%d" % i, "op": "bytes", "S": rschema, "tn": "Rd", "W": W, "v": c["v"], "inj": c["inj"], "b": c["b"]})
+        W = [dict(d, fields=c["wf"]) if d["name"] == c["tn"] else d for d in rschema]
+        out.append({"id": "e%d" % i, "op": "bytes", "S": rschema, "tn": c["tn"], "W": W, "v": c["v"], "inj": c["inj"], "b": c["b"]})
     return out
 
 
@@ -60,7 +64,7 @@ def run(ctx):
         pad = [{"id": 100 + k, "name": "pad%d" % k, "t": {"k": "i32"}, "req": False, "def": {"k": "none"}} for k in range(1, 13)]
         rdw = dict(rd, name="RdW", fields=list(rd["fields"]) + pad)
         wide = []
-        for c in cases[:: (7 if ctx.quick() else 2)]:
+        for c in [c for c in cases if c["tn"] == "Rd"][:: (7 if ctx.quick() else 2)]:
             wide.append(dict(c, id=c["id"] + "w", S=list(c["S"]) + [rdw], tn="RdW", wtn="Rd"))
         cases = cases + wide
     defs = genlab.collect_defs(fam + [{"S": c["S"]} for c in cases if c.get("tn") == "RdW"][:1] + [{"S": cases[0]["S"]}])
@@ -69,14 +73,14 @@ def run(ctx):
     ctx.evals = len(rows)
     bad, _ = vlib.validate_trace(ctx, "C05Trace", rows, canary=canary, shard=500, timeout=3000)
     for row, why in bad:
-        vlib.report_failure(ctx, row, {"failed": why, "id": row.get("id"), "writer": [d for d in row["case"]["W"] if d["name"] == "Rd"],
+        vlib.report_failure(ctx, row, {"failed": why, "id": row.get("id"), "writer": [d for d in row["case"]["W"] if d["name"] == row["case"].get("wtn", row["case"]["tn"])],
                                        "v": row["case"]["v"], "b": row["case"]["b"]}, case=row["case"])
     ctx.cov["distinct_nontrivial"] = vlib.distinct_count(rows, lambda r: r["case"]["b"])
     ctx.cov["decoded_ok"] = sum(1 for r in rows if r["fw"]["ok"])
     ctx.cov["rejected"] = sum(1 for r in rows if not r["fw"]["ok"])
     ctx.cov["with_injection"] = sum(1 for r in rows if r["case"]["inj"])
     for r in [x for x in rows if x["fw"]["ok"]][:1] + [x for x in rows if not x["fw"]["ok"]][:1] + [x for x in rows if x["case"]["inj"]][:1]:
-        ctx.sample({"id": r["id"], "writer_fields": [d for d in r["case"]["W"] if d["name"] == "Rd"][0]["fields"], "v": r["case"]["v"],
+        ctx.sample({"id": r["id"], "writer_fields": [d for d in r["case"]["W"] if d["name"] == r["case"].get("wtn", r["case"]["tn"])][0]["fields"], "v": r["case"]["v"],
                     "inj": r["case"]["inj"], "b": r["case"]["b"], "fw": r["fw"]})
     ctx.assumptions += ["the reflection projection", "the writer side is the reference encoder of GenCodec.tla (the generated code under "
                         "test is only the reader)"]
